@@ -30,6 +30,14 @@ fn main() {
             }
             let seed: u64 = std::env::var("VERIF_SEED").ok().and_then(|s| s.trim().parse::<i128>().ok()).map(|v| v as u64).unwrap_or(20261003);
             let cfg = RunCfg { id, thorough: tier == "thorough", seed };
+            // watchdog: a hang (e.g. an endless loop in a changed engine) is inconclusive, never a violation
+            let limit = std::time::Duration::from_secs(if cfg.thorough { 4 * 3600 } else { 20 * 60 });
+            let wid = cfg.id.clone();
+            std::thread::spawn(move || {
+                std::thread::sleep(limit);
+                eprintln!("INCONCLUSIVE property={}: watchdog after {} s", wid, limit.as_secs());
+                std::process::exit(2);
+            });
             // a panic of the harness itself is reported as inconclusive (2), never as 101 or as a violation
             match guard(|| check(&cfg)) {
                 Ok(code) => exit(code),
